@@ -1,1 +1,559 @@
-//! reference model `kitty` (filled in by the property that needs it)
+//! Reference model of the kitty terminal graphics protocol, written from the protocol
+//! documentation (sw.kovidgoyal.net/kitty/graphics-protocol) and RFC 4648; it shares no code
+//! with the library under test.
+//!
+//! Three layers:
+//!  * `tokenize`  - splits a byte stream into APC strings, `ESC 7`, `ESC 8` and CSI sequences;
+//!    everything else is an error ("stray bytes").
+//!  * `parse_graphics` - `G<key>=<value>(,<key>=<value>)*[;<base64 payload>]` with the key table
+//!    of the documentation (single letter keys; `a t o d` take one character, `z H V` a signed
+//!    and all other keys an unsigned 32-bit decimal integer).
+//!  * `KittyTerm` - a small image store: chunked transmissions (`m=1` ... `m=0`) are assembled
+//!    and base64-decoded; `a=p` creates/replaces placements keyed by `(i, p)`; `a=d,d=i|I`
+//!    deletes. The protocol rule that placement id 0 means "unspecified" is applied on both
+//!    sides: a put with `p=0` always creates a new anonymous placement, a delete with `p=0`
+//!    (or no `p`) removes every placement of the image.
+use std::collections::BTreeMap;
+
+// --------------------------------------------------------------------------------------------
+// RFC 4648 base64 (private: `model::b64` belongs to another property)
+// --------------------------------------------------------------------------------------------
+
+fn b64_val(c: u8) -> Option<u8> {
+    match c {
+        b'A'..=b'Z' => Some(c - b'A'),
+        b'a'..=b'z' => Some(c - b'a' + 26),
+        b'0'..=b'9' => Some(c - b'0' + 52),
+        b'+' => Some(62),
+        b'/' => Some(63),
+        _ => None,
+    }
+}
+
+/// Strict RFC 4648 section 4 decoder: length a multiple of four, alphabet `A-Za-z0-9+/`,
+/// padding `=` only as the last one or two characters. (Non-zero pad bits are not rejected:
+/// RFC 4648 3.5 leaves that to the decoder.)
+pub fn b64_decode(data: &[u8]) -> Result<Vec<u8>, String> {
+    if data.len() % 4 != 0 {
+        return Err(format!("base64 length {} is not a multiple of 4", data.len()));
+    }
+    let mut out = Vec::with_capacity(data.len() / 4 * 3);
+    let quanta = data.len() / 4;
+    for (qi, q) in data.chunks(4).enumerate() {
+        let last = qi + 1 == quanta;
+        let pad = q.iter().rev().take_while(|c| **c == b'=').count();
+        if pad > 2 || (pad > 0 && !last) {
+            return Err(format!("base64 padding in the middle (quantum {qi})"));
+        }
+        let mut acc: u32 = 0;
+        for (k, c) in q.iter().enumerate() {
+            let v = if k >= 4 - pad {
+                0
+            } else {
+                b64_val(*c).ok_or_else(|| format!("byte 0x{:02x} is not in the base64 alphabet", c))?
+            };
+            acc = (acc << 6) | v as u32;
+        }
+        out.push((acc >> 16) as u8);
+        if pad < 2 {
+            out.push((acc >> 8) as u8);
+        }
+        if pad < 1 {
+            out.push(acc as u8);
+        }
+    }
+    Ok(out)
+}
+
+// --------------------------------------------------------------------------------------------
+// byte stream -> tokens
+// --------------------------------------------------------------------------------------------
+
+#[derive(Debug, Clone, PartialEq, Eq)]
+pub enum Tok {
+    /// body of `ESC _ <body> ESC \`
+    Apc(Vec<u8>),
+    /// `ESC 7` (DECSC)
+    SaveCursor,
+    /// `ESC 8` (DECRC)
+    RestoreCursor,
+    /// `ESC [ <params> <final>`
+    Csi { params: Vec<u8>, fin: u8 },
+}
+
+pub fn tokenize(bytes: &[u8]) -> Result<Vec<Tok>, String> {
+    let mut toks = Vec::new();
+    let mut i = 0;
+    while i < bytes.len() {
+        if bytes[i] != 0x1b {
+            return Err(format!("stray byte 0x{:02x} at offset {i} outside any escape sequence", bytes[i]));
+        }
+        let Some(&kind) = bytes.get(i + 1) else {
+            return Err("lone ESC at end of output".into());
+        };
+        match kind {
+            b'_' => {
+                let start = i + 2;
+                let mut j = start;
+                loop {
+                    match bytes.get(j) {
+                        None => return Err(format!("APC starting at offset {i} is not terminated by ESC \\")),
+                        Some(0x1b) => {
+                            if bytes.get(j + 1) == Some(&b'\\') {
+                                break;
+                            }
+                            return Err(format!("ESC inside APC at offset {j} is not the string terminator"));
+                        }
+                        Some(b) if *b < 0x20 || *b > 0x7e => {
+                            return Err(format!("byte 0x{:02x} inside APC at offset {j}", b));
+                        }
+                        Some(_) => j += 1,
+                    }
+                }
+                toks.push(Tok::Apc(bytes[start..j].to_vec()));
+                i = j + 2;
+            }
+            b'7' => {
+                toks.push(Tok::SaveCursor);
+                i += 2;
+            }
+            b'8' => {
+                toks.push(Tok::RestoreCursor);
+                i += 2;
+            }
+            b'[' => {
+                let mut j = i + 2;
+                while j < bytes.len() && (0x30..=0x3f).contains(&bytes[j]) {
+                    j += 1;
+                }
+                let params = bytes[i + 2..j].to_vec();
+                while j < bytes.len() && (0x20..=0x2f).contains(&bytes[j]) {
+                    j += 1;
+                }
+                match bytes.get(j) {
+                    Some(f) if (0x40..=0x7e).contains(f) => {
+                        toks.push(Tok::Csi { params, fin: *f });
+                        i = j + 1;
+                    }
+                    _ => return Err(format!("CSI at offset {i} has no final byte")),
+                }
+            }
+            other => return Err(format!("unknown escape ESC 0x{:02x} at offset {i}", other)),
+        }
+    }
+    Ok(toks)
+}
+
+// --------------------------------------------------------------------------------------------
+// APC body -> graphics command
+// --------------------------------------------------------------------------------------------
+
+#[derive(Debug, Clone, Copy, PartialEq, Eq)]
+pub enum Val {
+    Char(u8),
+    Uint(u32),
+    Int(i64),
+}
+
+#[derive(Debug, Clone, Default)]
+pub struct Cmd {
+    pub keys: BTreeMap<u8, Val>,
+    pub payload: Vec<u8>,
+}
+
+impl Cmd {
+    pub fn uint(&self, k: u8) -> Option<u32> {
+        match self.keys.get(&k) {
+            Some(Val::Uint(v)) => Some(*v),
+            _ => None,
+        }
+    }
+    pub fn ch(&self, k: u8) -> Option<u8> {
+        match self.keys.get(&k) {
+            Some(Val::Char(v)) => Some(*v),
+            _ => None,
+        }
+    }
+    pub fn describe(&self) -> String {
+        let mut s = String::new();
+        for (k, v) in &self.keys {
+            if !s.is_empty() {
+                s.push(',');
+            }
+            match v {
+                Val::Char(c) => s.push_str(&format!("{}={}", *k as char, *c as char)),
+                Val::Uint(u) => s.push_str(&format!("{}={}", *k as char, u)),
+                Val::Int(i) => s.push_str(&format!("{}={}", *k as char, i)),
+            }
+        }
+        if !self.payload.is_empty() {
+            s.push_str(&format!(";<{} payload bytes>", self.payload.len()));
+        }
+        s
+    }
+}
+
+const CHAR_KEYS: &[u8] = b"atod";
+const INT_KEYS: &[u8] = b"zHV";
+const UINT_KEYS: &[u8] = b"qfsvSOiIpmxywhXYcrCUPQ";
+
+pub fn parse_graphics(body: &[u8]) -> Result<Cmd, String> {
+    if body.first() != Some(&b'G') {
+        return Err("APC string is not a graphics command (does not start with 'G')".into());
+    }
+    let rest = &body[1..];
+    let (control, payload) = match rest.iter().position(|b| *b == b';') {
+        Some(p) => (&rest[..p], &rest[p + 1..]),
+        None => (rest, &rest[rest.len()..]),
+    };
+    let mut cmd = Cmd::default();
+    if !control.is_empty() {
+        for kv in control.split(|b| *b == b',') {
+            if kv.len() < 3 || kv[1] != b'=' {
+                return Err(format!("control entry {:?} is not <key>=<value>", String::from_utf8_lossy(kv)));
+            }
+            let k = kv[0];
+            let v = &kv[2..];
+            let val = if CHAR_KEYS.contains(&k) {
+                if v.len() != 1 || !v[0].is_ascii_alphabetic() {
+                    return Err(format!("key {} needs a single letter, got {:?}", k as char, String::from_utf8_lossy(v)));
+                }
+                Val::Char(v[0])
+            } else if UINT_KEYS.contains(&k) || INT_KEYS.contains(&k) {
+                let (neg, digits) = if INT_KEYS.contains(&k) && v[0] == b'-' { (true, &v[1..]) } else { (false, v) };
+                if digits.is_empty() || digits.len() > 12 || !digits.iter().all(|d| d.is_ascii_digit()) {
+                    return Err(format!("key {} needs a decimal integer, got {:?}", k as char, String::from_utf8_lossy(v)));
+                }
+                let n: u64 = std::str::from_utf8(digits).unwrap().parse().unwrap();
+                if n > u32::MAX as u64 {
+                    return Err(format!("key {} value {} exceeds the 32-bit limit 4294967295", k as char, n));
+                }
+                if INT_KEYS.contains(&k) {
+                    Val::Int(if neg { -(n as i64) } else { n as i64 })
+                } else {
+                    Val::Uint(n as u32)
+                }
+            } else {
+                return Err(format!("unknown control key {:?}", k as char));
+            };
+            if cmd.keys.insert(k, val).is_some() {
+                return Err(format!("control key {} given twice", k as char));
+            }
+        }
+    }
+    if let Some(b) = payload.iter().find(|b| b64_val(**b).is_none() && **b != b'=') {
+        return Err(format!("payload byte 0x{:02x} is not base64", b));
+    }
+    cmd.payload = payload.to_vec();
+    Ok(cmd)
+}
+
+// --------------------------------------------------------------------------------------------
+// reference terminal
+// --------------------------------------------------------------------------------------------
+
+#[derive(Debug, Clone, PartialEq, Eq)]
+pub struct StoredImage {
+    pub width: u32,
+    pub height: u32,
+    /// bytes per pixel (3 or 4)
+    pub bpp: u32,
+    pub data: Vec<u8>,
+}
+
+#[derive(Debug, Clone, PartialEq, Eq, PartialOrd, Ord, Hash)]
+pub struct Placement {
+    pub image: u32,
+    /// 0 = anonymous (created with p unspecified)
+    pub pid: u32,
+    /// cursor cell (row, col) at the time of the put
+    pub at: (u32, u32),
+    /// unique, increasing: lets callers attach their own bookkeeping
+    pub serial: u64,
+}
+
+#[derive(Debug, Clone)]
+pub struct Chunk {
+    pub len: usize,
+    pub more: u32,
+    /// control keys present on a continuation chunk other than m and q
+    pub extra_keys: Vec<u8>,
+    pub q: Option<u32>,
+}
+
+#[derive(Debug, Clone)]
+struct Pending {
+    id: u32,
+    width: u32,
+    height: u32,
+    format: u32,
+    chunks: Vec<Chunk>,
+    payload: Vec<u8>,
+    /// set when '=' padding occurs in a chunk that is not the last
+    pad_inside: bool,
+}
+
+#[derive(Debug, Clone)]
+pub enum Outcome {
+    /// chunk accepted, transmission still open
+    ChunkPending,
+    /// transmission finished and stored
+    Transmitted { id: u32, width: u32, height: u32, format: u32, chunks: Vec<Chunk>, bytes: usize },
+    /// placement created (or replaced when `replaced`)
+    Put { id: u32, pid: u32, serial: u64, replaced: bool, at: (u32, u32) },
+    /// delete executed; `removed` are the placements that disappeared
+    Deleted { id: u32, pid: u32, removed: Vec<Placement>, freed: bool },
+    /// the terminal would answer with an error (code, text)
+    Rejected { code: &'static str, text: String },
+}
+
+#[derive(Debug, Clone, Default)]
+pub struct KittyTerm {
+    pub images: BTreeMap<u32, StoredImage>,
+    pub placements: Vec<Placement>,
+    pending: Option<Pending>,
+    pub cursor: (u32, u32),
+    saved: Option<(u32, u32)>,
+    next_serial: u64,
+}
+
+impl KittyTerm {
+    pub fn new() -> Self {
+        Self::default()
+    }
+
+    pub fn transmission_open(&self) -> bool {
+        self.pending.is_some()
+    }
+
+    /// Non-graphics tokens: only cursor save / restore / CUP are modelled.
+    pub fn control(&mut self, tok: &Tok) -> Result<(), String> {
+        match tok {
+            Tok::SaveCursor => {
+                self.saved = Some(self.cursor);
+                Ok(())
+            }
+            Tok::RestoreCursor => {
+                self.cursor = self.saved.unwrap_or((0, 0));
+                Ok(())
+            }
+            Tok::Csi { params, fin: b'H' } => {
+                let text = String::from_utf8_lossy(params).to_string();
+                let mut it = text.split(';');
+                let num = |s: Option<&str>| -> Result<u32, String> {
+                    match s {
+                        None | Some("") => Ok(1),
+                        Some(t) => t.parse::<u32>().map_err(|_| format!("bad CUP parameter {t:?}")),
+                    }
+                };
+                let row = num(it.next())?;
+                let col = num(it.next())?;
+                if it.next().is_some() {
+                    return Err(format!("CUP with more than two parameters: {text:?}"));
+                }
+                self.cursor = (row.max(1) - 1, col.max(1) - 1);
+                Ok(())
+            }
+            Tok::Csi { params, fin } => Err(format!(
+                "control sequence CSI {} {} is not modelled",
+                String::from_utf8_lossy(params),
+                *fin as char
+            )),
+            Tok::Apc(_) => Err("APC passed to control()".into()),
+        }
+    }
+
+    fn finish(&mut self, p: Pending) -> Outcome {
+        if p.pad_inside {
+            return Outcome::Rejected {
+                code: "EINVAL",
+                text: "base64 padding inside a chunk that is not the last one".into(),
+            };
+        }
+        let data = match b64_decode(&p.payload) {
+            Ok(d) => d,
+            Err(e) => return Outcome::Rejected { code: "EINVAL", text: format!("payload is not valid base64: {e}") },
+        };
+        let bpp = p.format / 8;
+        let need = p.width as u64 * p.height as u64 * bpp as u64;
+        if data.len() as u64 != need {
+            return Outcome::Rejected {
+                code: "ENODATA",
+                text: format!(
+                    "payload decodes to {} bytes but s={} v={} f={} needs {}",
+                    data.len(),
+                    p.width,
+                    p.height,
+                    p.format,
+                    need
+                ),
+            };
+        }
+        let bytes = data.len();
+        self.images.insert(p.id, StoredImage { width: p.width, height: p.height, bpp, data });
+        Outcome::Transmitted { id: p.id, width: p.width, height: p.height, format: p.format, chunks: p.chunks, bytes }
+    }
+
+    pub fn exec(&mut self, c: &Cmd) -> Outcome {
+        // a chunked transmission swallows every graphics command until m=0
+        if let Some(mut p) = self.pending.take() {
+            let extra: Vec<u8> = c.keys.keys().copied().filter(|k| *k != b'm' && *k != b'q').collect();
+            let more = c.uint(b'm').unwrap_or(0);
+            if p.payload.contains(&b'=') {
+                p.pad_inside = true;
+            }
+            p.payload.extend_from_slice(&c.payload);
+            p.chunks.push(Chunk { len: c.payload.len(), more, extra_keys: extra, q: c.uint(b'q') });
+            if more > 1 {
+                return Outcome::Rejected { code: "EINVAL", text: format!("m={more}") };
+            }
+            if more == 1 {
+                self.pending = Some(p);
+                return Outcome::ChunkPending;
+            }
+            return self.finish(p);
+        }
+        if let Some(q) = c.uint(b'q') {
+            if q > 2 {
+                return Outcome::Rejected { code: "EINVAL", text: format!("q={q}") };
+            }
+        }
+        let action = c.ch(b'a').unwrap_or(b't');
+        match action {
+            b't' => {
+                let format = c.uint(b'f').unwrap_or(32);
+                if ![24, 32].contains(&format) {
+                    return Outcome::Rejected { code: "EINVAL", text: format!("pixel format f={format} is not modelled") };
+                }
+                if let Some(t) = c.ch(b't') {
+                    if t != b'd' {
+                        return Outcome::Rejected { code: "EINVAL", text: format!("transmission medium t={} is not modelled", t as char) };
+                    }
+                }
+                if let Some(o) = c.ch(b'o') {
+                    return Outcome::Rejected { code: "EINVAL", text: format!("compression o={} is not modelled", o as char) };
+                }
+                let id = c.uint(b'i').unwrap_or(0);
+                if id == 0 {
+                    return Outcome::Rejected { code: "EINVAL", text: "transmission without an image id (i missing or 0) can never be referenced".into() };
+                }
+                let (Some(width), Some(height)) = (c.uint(b's'), c.uint(b'v')) else {
+                    return Outcome::Rejected { code: "EINVAL", text: "transmission without s / v".into() };
+                };
+                if width == 0 || height == 0 {
+                    return Outcome::Rejected { code: "EINVAL", text: format!("zero width/height not allowed (s={width}, v={height})") };
+                }
+                let more = c.uint(b'm').unwrap_or(0);
+                if more > 1 {
+                    return Outcome::Rejected { code: "EINVAL", text: format!("m={more}") };
+                }
+                let p = Pending {
+                    id,
+                    width,
+                    height,
+                    format,
+                    chunks: vec![Chunk { len: c.payload.len(), more, extra_keys: vec![], q: c.uint(b'q') }],
+                    payload: c.payload.clone(),
+                    pad_inside: false,
+                };
+                if more == 1 {
+                    self.pending = Some(p);
+                    Outcome::ChunkPending
+                } else {
+                    self.finish(p)
+                }
+            }
+            b'p' => {
+                if !c.payload.is_empty() {
+                    return Outcome::Rejected { code: "EINVAL", text: "put command with a payload".into() };
+                }
+                let id = c.uint(b'i').unwrap_or(0);
+                if id == 0 {
+                    return Outcome::Rejected { code: "EINVAL", text: "put without image id".into() };
+                }
+                if !self.images.contains_key(&id) {
+                    return Outcome::Rejected { code: "ENOENT", text: format!("put refers to image id {id} which was never transmitted") };
+                }
+                let pid = c.uint(b'p').unwrap_or(0);
+                let mut replaced = false;
+                if pid != 0 {
+                    let before = self.placements.len();
+                    self.placements.retain(|pl| !(pl.image == id && pl.pid == pid));
+                    replaced = self.placements.len() != before;
+                }
+                self.next_serial += 1;
+                let serial = self.next_serial;
+                self.placements.push(Placement { image: id, pid, at: self.cursor, serial });
+                // C=1 keeps the cursor where it is; without it the cursor moves after the image.
+                // Cursor motion caused by images is not modelled (callers set the cursor).
+                Outcome::Put { id, pid, serial, replaced, at: self.cursor }
+            }
+            b'd' => {
+                let what = c.ch(b'd').unwrap_or(b'a');
+                match what {
+                    b'a' | b'A' => {
+                        let removed = std::mem::take(&mut self.placements);
+                        if what == b'A' {
+                            self.images.clear();
+                        }
+                        Outcome::Deleted { id: 0, pid: 0, removed, freed: what == b'A' }
+                    }
+                    b'i' | b'I' => {
+                        let id = c.uint(b'i').unwrap_or(0);
+                        if id == 0 {
+                            return Outcome::Rejected { code: "EINVAL", text: "delete by id without an image id".into() };
+                        }
+                        let pid = c.uint(b'p').unwrap_or(0);
+                        let mut removed = vec![];
+                        self.placements.retain(|pl| {
+                            // p = 0 means "unspecified": every placement of the image goes
+                            let hit = pl.image == id && (pid == 0 || pl.pid == pid);
+                            if hit {
+                                removed.push(pl.clone());
+                            }
+                            !hit
+                        });
+                        let mut freed = false;
+                        if what == b'I' && !self.placements.iter().any(|pl| pl.image == id) {
+                            freed = self.images.remove(&id).is_some();
+                        }
+                        Outcome::Deleted { id, pid, removed, freed }
+                    }
+                    other => Outcome::Rejected { code: "EINVAL", text: format!("delete mode d={} is not modelled", other as char) },
+                }
+            }
+            other => Outcome::Rejected { code: "EINVAL", text: format!("action a={} is not modelled", other as char) },
+        }
+    }
+}
+
+#[cfg(test)]
+mod tests {
+    use super::*;
+
+    #[test]
+    fn rfc4648_vectors() {
+        for (e, d) in [("", ""), ("Zg==", "f"), ("Zm8=", "fo"), ("Zm9v", "foo"), ("Zm9vYg==", "foob"), ("Zm9vYmE=", "fooba"), ("Zm9vYmFy", "foobar")] {
+            assert_eq!(b64_decode(e.as_bytes()).unwrap(), d.as_bytes());
+        }
+        assert!(b64_decode(b"Zg=").is_err());
+        assert!(b64_decode(b"Z===").is_err());
+        assert!(b64_decode(b"Zg==Zg==").is_err());
+        assert!(b64_decode(b"Zm9-").is_err());
+    }
+
+    #[test]
+    fn p0_is_unspecified() {
+        let mut t = KittyTerm::new();
+        let tx = parse_graphics(b"Ga=t,f=32,i=7,s=1,v=1;AAAAAA==").unwrap();
+        assert!(matches!(t.exec(&tx), Outcome::Transmitted { .. }));
+        for p in ["Ga=p,i=7,p=0", "Ga=p,i=7", "Ga=p,i=7,p=5", "Ga=p,i=7,p=5"] {
+            t.exec(&parse_graphics(p.as_bytes()).unwrap());
+        }
+        assert_eq!(t.placements.len(), 3); // two anonymous, one p=5 (replaced once)
+        t.exec(&parse_graphics(b"Ga=d,d=i,i=7,p=5").unwrap());
+        assert_eq!(t.placements.len(), 2);
+        t.exec(&parse_graphics(b"Ga=d,d=i,i=7,p=0").unwrap());
+        assert_eq!(t.placements.len(), 0);
+    }
+}
